@@ -315,6 +315,12 @@ def index_law(ctx):
     sym = Sym()
     ev = Ev(sym=sym)
     ev.env['n'], ev.env['m'], ev.env['c'] = A('n'), A('m'), A('c')
+    if not apps:
+        res.fail(ctx.finding('INDEX-LAW', f, f.node,
+                             'the Noll number of an index pair is never '
+                             'recorded (no number.append): the indices cannot '
+                             'be sorted by it', construct='Noll number law'))
+        return res
     v = ev.ev(apps[0].args[0])
     if sym.eq(v, A('n') * (A('n') + ONE) / C(2) + sym.absv(A('m')) + A('c')):
         res.ok('Noll number == n(n+1)/2 + |m| + c')
